@@ -46,7 +46,8 @@ def _matrix(ctx, kind):
         cnt = 0
         for r in rows:
             for x in r:
-                cnt = cnt + (x != 0).num()
+                t = (x != 0)
+                cnt = cnt + (int(t) if isinstance(t, bool) else t.num())
         e.assume(cnt <= maxnz)
     return A, rows
 
